@@ -125,7 +125,9 @@ func (e *Exec) callVal(s *State, cc *ssa.CallCommon, args []Val, setRes func(*St
 	prevSig := e.curCallSig
 	e.curCallSig = sig
 	defer func() { e.curCallSig = prevSig }()
-	unknown := func(why string, havoc bool) bool {
+	var mkUnknown func(s *State) func(string, bool) bool
+	mkUnknown = func(s *State) func(string, bool) bool {
+		return func(why string, havoc bool) bool {
 		for _, a := range args {
 			e.escape(s, a)
 		}
@@ -204,7 +206,9 @@ func (e *Exec) callVal(s *State, cc *ssa.CallCommon, args []Val, setRes func(*St
 		}
 		setRes(s, res)
 		return false
+			}
 	}
+	unknown := mkUnknown(s)
 	// ---- interface method call ----
 	if cc.IsInvoke() {
 		name := "invoke " + cc.Method.FullName()
@@ -220,6 +224,36 @@ func (e *Exec) callVal(s *State, cc *ssa.CallCommon, args []Val, setRes func(*St
 		if con, ok := e.w.contracts[name]; ok {
 			e.applyContract(s, con, args, setRes)
 			return false
+		}
+		if cl := e.w.closedFor(cc.Value.Type()); cl != nil {
+			// closed interface: one arm per implementing type (the dynamic type of a value is decided once per path)
+			iv := args[0].(*Agg)
+			tag, ref := iv.F[0].(Scalar).T, iv.F[1].(Scalar).T
+			e.safety("nil", s, fmt.Sprintf("(not (= %s 0))", tag))
+			for _, T := range cl.Types {
+				id := typeID(T)
+				e.w.typeNames[id] = T
+				if known, ok := s.tagOf[tag]; ok && known != id {
+					continue
+				}
+				sel := e.w.prog.MethodSets.MethodSet(T).Lookup(cc.Method.Pkg(), cc.Method.Name())
+				if sel == nil {
+					e.abort("closed interface %s: %s has no method %s", cl.Name, T, cc.Method.Name())
+				}
+				fn := e.w.prog.MethodValue(sel)
+				if fn == nil {
+					e.abort("closed interface %s: no SSA for %s.%s", cl.Name, T, cc.Method.Name())
+				}
+				s2 := s.clone()
+				s2.assume("(= %s %d)", tag, id)
+				s2.tagOf[tag] = id
+				args2 := append([]Val{e.unbox(s2, T, ref)}, args[1:]...)
+				e.note("dispatch(closed interface)", name)
+				if !e.callResolved(s2, cc, fn, nil, args2, setRes, rest, mkUnknown(s2)) {
+					rest(s2)
+				}
+			}
+			return true
 		}
 		if cc.Method.Pkg() != nil && isPurePkg(cc.Method.Pkg().Path()) || cc.Method.Name() == "Error" && cc.Method.Pkg() == nil {
 			return unknown(name, false)
@@ -276,6 +310,11 @@ func (e *Exec) callVal(s *State, cc *ssa.CallCommon, args []Val, setRes func(*St
 		}
 		e.abort("dynamic call without callback contract: %s (at %s)", cc.Value, e.posStr(token.NoPos))
 	}
+	return e.callResolved(s, cc, callee, closure, args, setRes, rest, unknown)
+}
+
+// callResolved: the call of a known function (static callee, closure, or one arm of an interface dispatch)
+func (e *Exec) callResolved(s *State, cc *ssa.CallCommon, callee *ssa.Function, closure *ClosureV, args []Val, setRes func(*State, Val), rest func(*State), unknown func(string, bool) bool) bool {
 	name := callee.String()
 	if o := callee.Origin(); o != nil {
 		name = o.String()
